@@ -174,11 +174,14 @@ class OpHarness(symex.Harness):
         self.witness = {}
         self.vc = 0
         self.paths_log = []     # (pc-serialisation, result) when summaries are requested
+        self.samples = []
+        self.known_samples = []
         self.want_summary = getattr(self, "want_summary", False)
 
     def collect(self):
         return dict(counts=self.counts, viol=self.viol, witness=self.witness, vc=self.vc,
-                    entered=sorted(ENTERED), paths=self.paths_log)
+                    entered=sorted(ENTERED), paths=self.paths_log, samples=self.samples,
+                    known_samples=self.known_samples)
 
     def merge(self, s):
         for k, v in s["counts"].items():
@@ -189,6 +192,8 @@ class OpHarness(symex.Harness):
         self.vc += s["vc"]
         ENTERED.update(s["entered"])
         self.paths_log.extend(s["paths"])
+        self.samples.extend(s["samples"])
+        self.known_samples.extend(s["known_samples"])
 
     def mk_engine(self):
         tt.set_universe(self.N)
@@ -238,6 +243,11 @@ class OpHarness(symex.Harness):
         return self.spec.accepted_base(self.weakly)
 
     def expected(self):
+        if getattr(self, "_exp", None) is None:
+            self._exp = self.build_expected()
+        return self._exp
+
+    def build_expected(self):
         return specs.spec_of(self.spec, self.system, self.QA, self.QB, self.weakly)
 
     def neg_vc(self, res):
@@ -259,15 +269,35 @@ class OpHarness(symex.Harness):
         else:
             self.counts[kind] += 1
         self.vc += 1
-        m = eng.vc(self.neg_vc(res))
+        neg = self.neg_vc(res)
+        preds = self.known_preds()
+        m = eng.vc(Z.And(neg, *[Z.Not(p) for _, _, p in preds])) if preds else eng.vc(neg)
         if m is not None:
             if len(self.viol) < 40:
                 self.viol.append(dict(res=list(res), vars={str(v): concretise.model_int(m, v) for v in self.sb.vars}))
             else:
                 self.witness["more_violations"] = self.witness.get("more_violations", 0) + 1
+        elif preds:
+            m2 = eng.vc(neg)
+            if m2 is not None:
+                for fid, what, p in preds:
+                    if Z.is_true(m2.eval(p, model_completion=True)):
+                        k = "known:" + fid
+                        self.witness[k] = self.witness.get(k, 0) + 1
+                        if len(self.known_samples) < 3:
+                            self.known_samples.append(dict(fid=fid, res=list(res), vars={str(v): concretise.model_int(m2, v) for v in self.sb.vars}))
+                        break
+        if len(self.samples) < 2:
+            ms = eng.vc(Z.BoolVal(True))
+            if ms is not None:
+                self.samples.append(dict(config=self.label, decisions=len(eng.frames), result=list(res),
+                                         tables={str(v): concretise.model_int(ms, v) for v in self.sb.vars}))
         self.path_witnesses(eng, res)
         if self.want_summary:
             self.paths_log.append((Z.And(*eng.pc()).serialize() if eng.pc() else "", list(res)))
+
+    def known_preds(self):
+        return getattr(self, "_known", [])
 
     def path_witnesses(self, eng, res):
         pass
